@@ -201,7 +201,7 @@ class StackRig:
             return                      # a closed transport delivers no more reads
         try:
             self.protocol.data_received(raw)
-        except Exception as e:  # noqa - the loop would log it
+        except BaseException as e:  # noqa - the loop would log it
             self.note({"o": "raised", "where": "data_received", "exc": type(e).__name__})
 
     async def connect(self, boot_rstack=None):
@@ -255,11 +255,11 @@ class StackRig:
                     self.loop.call_soon(self.protocol.connection_lost, None)
             else:
                 self.protocol.connection_lost(ConnectionResetError("gone"))
-        except Exception as e:  # noqa
+        except BaseException as e:  # noqa
             self.note({"o": "raised", "where": "connection_lost", "exc": type(e).__name__})
 
     async def settle(self):
-        for _ in range(500):
+        for _ in range(50000):
             await asyncio.sleep(0)
             if not self.loop._ready:
                 return
